@@ -215,8 +215,8 @@ class Outcome:
 
 
 def outcomes(stmts, scope: Scope | None = None, env: dict | None = None, atom=None, expand: bool = True,
-             limit: int = 2000, depth: int = 0) -> list[Outcome]:
-    """Enumerate syntactic paths with flow-sensitive resolution."""
+             limit: int = 2000, depth: int = 0, opaque=()) -> list[Outcome]:
+    """Enumerate syntactic paths with flow-sensitive resolution.  Names in `opaque` are never substituted."""
     from .paths import eval_bool
 
     done: list[Outcome] = []
@@ -262,6 +262,8 @@ def outcomes(stmts, scope: Scope | None = None, env: dict | None = None, atom=No
         if isinstance(s, (ast.Assign, ast.AnnAssign)):
             from .resolve import run_block
             env2 = run_block([s], env)
+            for nm in opaque:
+                env2.pop(nm, None)
             # item / attribute stores are events
             tg = s.targets if isinstance(s, ast.Assign) else [s.target]
             ev2 = events + ([s] if any(not isinstance(t, (ast.Name, ast.Tuple)) for t in tg) else [])
@@ -294,7 +296,7 @@ def outcomes(stmts, scope: Scope | None = None, env: dict | None = None, atom=No
             if f is not None and expression_body(f) is None:
                 binding = bind_args(f, val)
                 if binding is not None:
-                    for o in outcomes(_strip(f.body), scope, binding, atom, expand, limit, depth + 1):
+                    for o in outcomes(_strip(f.body), scope, binding, atom, expand, limit, depth + 1, opaque):
                         if o.kind == "fall":
                             o = Outcome(o.conds, "return", ast.Constant(value=None), o.events, o.env, o.node, o.seq)
                         done.append(Outcome(conds + o.conds, o.kind, o.value, events + o.events, o.env, o.node or node,
